@@ -8,6 +8,7 @@
   Vocabulary (CTM/Lemmas/TreeDefs.lean):
     `DictOK t`  every Python dict of the tree has distinct keys
     `WF t`      `validate t = .ok ()`, `t.hierarchy.Nodup`, `t.hierarchy ≠ []`, `DictOK t`
+                (= `validate t = .ok () ∧ DictOK t`, see `wf_iff_validate`)
     `(pl, cl) ∈ levelPairs t.hierarchy`   cl is the level right below pl
     `t.level l` the dict of level l (association list node ↦ children / rows),
     `t.nodesAt l` its keys, `t.entry l n` = `tree[l][n]`
@@ -103,12 +104,34 @@ where
 
 /-- The validator decides exactly the strict-tree specification `Strict`
 (CTM/Lemmas/TreeDefs.lean: key set = hierarchy, string node names, every listed
-child exists, no orphan, no second parent, no repeated child, no repeated row):
-nothing less is accepted, and — for distinct level names — nothing more is
-demanded beyond a non-empty hierarchy (the code evaluates `hierarchy[-1]`). -/
-theorem validate_iff_strict (t : RawTree) (hn : t.hierarchy.Nodup) :
-    t.validate = .ok () ↔ Strict t ∧ t.hierarchy ≠ [] :=
-  validate_ok_iff hn
+child exists, no orphan, no second parent, no childless parent, no repeated
+child, no repeated row) together with: distinct level names, a non-empty
+hierarchy and a node at the top level.  Nothing less is accepted and nothing
+more is demanded (sound and complete, no hypothesis). -/
+theorem validate_iff_strict (t : RawTree) :
+    t.validate = .ok () ↔ Strict t ∧ t.hierarchy.Nodup ∧ t.hierarchy ≠ [] ∧
+      ∀ l0, t.hierarchy.head? = some l0 → t.nodesAt l0 ≠ [] :=
+  validate_ok_iff
+
+/-- Since the `fix:` commits 799c7a6 / 6649211 the hypotheses "distinct level
+names", "non-empty hierarchy" and "the taxonomy has a node" are CONSEQUENCES of
+acceptance: an accepted tree lists no level twice, has at least one level, and
+every level of its hierarchy has at least one node (top level by the validator,
+the others because every node above the leaf level has a child). -/
+theorem validate_wellformed (t : RawTree) (hv : t.validate = .ok ()) :
+    t.hierarchy.Nodup ∧ t.hierarchy ≠ [] ∧
+    (∃ l0 n, t.hierarchy.head? = some l0 ∧ n ∈ t.nodesAt l0) ∧
+    ∀ l, l ∈ t.hierarchy → t.nodesAt l ≠ [] :=
+  ⟨hierarchy_nodup_of_validate hv, hierarchy_ne_nil_of_validate hv,
+    exists_top_node_of_validate hv, fun _ hl => nodesAt_ne_nil_of_validate_lv hv hl⟩
+
+example : exTree.validate = .ok () := by decide
+
+/-- Hence `WF` — the hypothesis of the theorems below — is exactly "accepted by
+the validator + Python dict-key uniqueness": every theorem stated for `w : WF t`
+applies to any accepted tree through `WF.of_validate hv d`. -/
+theorem wf_iff_validate (t : RawTree) : WF t ↔ t.validate = .ok () ∧ DictOK t :=
+  ⟨fun w => ⟨w.valid, w.dict⟩, fun h => WF.of_validate h.1 h.2⟩
 
 example : exTree.hierarchy.Nodup := by decide
 
@@ -184,18 +207,41 @@ example : ({ exTree with levels := exTree.levels.map (fun (l, m) =>
 
 /-- a level dict whose key is not in the hierarchy (stray key / a level the
 hierarchy no longer lists) -/
-theorem validate_rejects_stray_key (t : RawTree) (hh : t.hasHierarchy = true) {k : Level}
+theorem validate_rejects_stray_key (t : RawTree) (hh : t.hasHierarchy = true)
+    (hn : t.hierarchy.Nodup) {k : Level}
     (hk : k ∈ t.levels.map (·.1)) (hnot : k ∉ t.hierarchy) : t.validate = .error .badKeys :=
-  rejects_stray_key hh hk hnot
+  rejects_stray_key hh hn hk hnot
 
 example : ({ exTree with hierarchy := [0, 1] } : RawTree).validate = .error .badKeys := by rfl
 
 /-- a hierarchy entry without a level dict (ghost level) -/
-theorem validate_rejects_ghost_level (t : RawTree) (hh : t.hasHierarchy = true) {k : Level}
+theorem validate_rejects_ghost_level (t : RawTree) (hh : t.hasHierarchy = true)
+    (hn : t.hierarchy.Nodup) {k : Level}
     (hk : k ∈ t.hierarchy) (hnot : k ∉ t.levels.map (·.1)) : t.validate = .error .badKeys :=
-  rejects_ghost_level hh hk hnot
+  rejects_ghost_level hh hn hk hnot
 
 example : ({ exTree with hierarchy := [0, 1, 2, 7] } : RawTree).validate = .error .badKeys := by rfl
+
+/-- a level name listed twice in the hierarchy (tested right after the
+`hierarchy` key itself, `fix:` 799c7a6) -/
+theorem validate_rejects_duplicate_level (t : RawTree) (hh : t.hasHierarchy = true)
+    (h : ¬ t.hierarchy.Nodup) : t.validate = .error .dupLevel :=
+  rejects_dup_level_exact hh h
+
+example : ({ exTree with hierarchy := [0, 1, 2, 1] } : RawTree).validate = .error .dupLevel ∧
+    -- the cycle x → y → x spelled with a repeated level name
+    (⟨true, [0, 1, 0], [(0, [(5, [6])]), (1, [(6, [5])])], true⟩ : RawTree).validate
+      = .error .dupLevel := by decide
+
+/-- a taxonomy without a node at its top level — in particular an empty
+hierarchy (`fix:` 6649211) -/
+theorem validate_rejects_no_nodes (t : RawTree) :
+    (t.hierarchy = [] → ∃ e, t.validate = .error e) ∧
+    (∀ l0, t.hierarchy.head? = some l0 → t.nodesAt l0 = [] → ∃ e, t.validate = .error e) :=
+  ⟨rejects_empty_hierarchy, fun _ h0 h => rejects_no_nodes h0 h⟩
+
+example : (⟨true, [], [], true⟩ : RawTree).validate = .error .noNodes ∧
+    (⟨true, [0], [(0, [])], true⟩ : RawTree).validate = .error .noNodes := by decide
 
 /-- no `hierarchy` key at all -/
 theorem validate_rejects_no_hierarchy (t : RawTree) (h : t.hasHierarchy = false) :
@@ -206,8 +252,9 @@ example : ({ exTree with hasHierarchy := false } : RawTree).validate = .error .n
 
 /-- a node name that is not a `str` -/
 theorem validate_rejects_non_str_node (t : RawTree) (hh : t.hasHierarchy = true)
+    (hn : t.hierarchy.Nodup)
     (hk : t.keysMatch = true) (h : t.nodesAreStr = false) : t.validate = .error .nonStrNode :=
-  rejects_non_str_node hh hk h
+  rejects_non_str_node hh hn hk h
 
 example : ({ exTree with nodesAreStr := false } : RawTree).validate = .error .nonStrNode := by rfl
 
@@ -605,8 +652,10 @@ example : (exTree.dropLevel 1).map (·.flatten) = .ok exTree.flatten := by decid
 /-- *"building it from per-cell label columns reproduces exactly the label
 combinations present"*.  `cols` = the column hierarchy (distinct names, at
 least one), `recs` = one list of labels per cell, one label per column.
-`get_taxonomy_tree` accepts the records iff the label columns are functionally
-nested (cells with the same child label have the same parent label); the tree
+`get_taxonomy_tree` accepts the records iff there is at least one cell and the
+label columns are functionally nested (cells with the same child label have
+the same parent label; without any cell the tree has no node and is refused
+since `fix:` 6649211); the tree
 it returns is well formed, its levels are the columns, the nodes of a level are
 the labels occurring in that column, `c` is a child of `p` iff some cell
 carries `p` and `c` in adjacent columns, the rows of a leaf are exactly the
@@ -614,7 +663,7 @@ indices of the cells carrying that leaf label, and the root-to-leaf paths of
 the tree are exactly the label tuples of the cells. -/
 theorem from_records (cols : List Level) (recs : List (List Node)) (hc : cols.Nodup)
     (hne : cols ≠ []) (hr : RecsOK cols recs) :
-    ((∃ t, fromRecords cols recs = .ok t) ↔ Nested cols recs) ∧
+    ((∃ t, fromRecords cols recs = .ok t) ↔ Nested cols recs ∧ recs ≠ []) ∧
     ∀ t, fromRecords cols recs = .ok t →
       WF t ∧ t.hierarchy = cols ∧
       (∀ j (hj : j < cols.length) p,
@@ -626,10 +675,18 @@ theorem from_records (cols : List Level) (recs : List (List Node)) (hc : cols.No
           ∃ r, recs[i]? = some r ∧ r.getLast? = some leaf) ∧
       (∀ ns, IsPath t ns ↔ ns ∈ recs) := by
   have hd := fromRecordsRaw_dictOK hc recs
-  have hiff : (fromRecordsRaw cols recs).validate = .ok () ↔ Nested cols recs := by
-    rw [validate_ok_iff (t := fromRecordsRaw cols recs) hc]
-    rw [fromRecordsRaw_strict_iff hc hr]
-    exact ⟨fun h => h.1, fun h => ⟨h, hne⟩⟩
+  have hiff : (fromRecordsRaw cols recs).validate = .ok () ↔ Nested cols recs ∧ recs ≠ [] := by
+    constructor
+    · intro hv
+      refine ⟨(fromRecordsRaw_strict_iff hc hr).1 (strict_of_validate hv), ?_⟩
+      rintro rfl
+      have h0 : (fromRecordsRaw cols []).hierarchy.head? =
+          some (cols[0]'(List.length_pos_iff.2 hne)) := by
+        rw [fromRecordsRaw_hierarchy, List.head?_eq_getElem?]
+        exact List.getElem?_eq_getElem _
+      exact hasNode_of_validate hv _ h0 (fromRecordsRaw_nil_noNode hc hne)
+    · intro h
+      exact (fromRecordsRaw_wf hc hne hr h.1 h.2).valid
   have hok : ∀ t, fromRecords cols recs = .ok t →
       t = fromRecordsRaw cols recs ∧ (fromRecordsRaw cols recs).validate = .ok () := by
     intro t ht
@@ -643,7 +700,7 @@ theorem from_records (cols : List Level) (recs : List (List Node)) (hc : cols.No
   · refine ⟨fromRecordsRaw cols recs, ?_⟩
     simp only [fromRecords, hiff.2 hn]
   · obtain ⟨rfl, hv⟩ := hok t ht
-    have hn := hiff.1 hv
+    have hn := (hiff.1 hv).1
     refine ⟨⟨hv, hc, hne, hd⟩, rfl, fun j hj p => fromRecordsRaw_nodes hc hr j hj p,
       fun j hj p c => ?_, fun leaf i => ?_, fun ns => fromRecordsRaw_paths hc hne hr hn ns⟩
     · rw [← isChild_iff hd]
@@ -654,22 +711,24 @@ theorem from_records (cols : List Level) (recs : List (List Node)) (hc : cols.No
 example : fromRecords [0, 1] [[10, 20], [10, 21], [11, 22], [10, 20]] =
     .ok ⟨true, [0, 1],
           [(0, [(10, [20, 21]), (11, [22])]), (1, [(20, [0, 3]), (21, [1]), (22, [2])])], true⟩ ∧
-    fromRecords [0, 1] [[10, 20], [11, 20]] = .error .twoParents := by decide
+    fromRecords [0, 1] [[10, 20], [11, 20]] = .error .twoParents ∧
+    fromRecords [0, 1] [] = .error .noNodes := by decide
 
 /-- The tree lemma behind C17 (*"flattening or dropping a level equals mapping
 on the reduced taxonomy"*): for nested label columns, building the tree from
 all columns and then dropping level `cols[i]` (any level; the leaf level with
-`allow_leaf`) succeeds and gives the same tree as building it from the records
+`allow_leaf`; at least one record) succeeds and gives the same tree as building it from the records
 with column `i` erased — same hierarchy, same nodes at every level, same
 children / rows for every node, up to the order inside the child / row lists
 (`TreeEquiv`, CTM/Lemmas/TreeCommute.lean). -/
 theorem drop_commutes_build (cols : List Level) (recs : List (List Node)) (hc : cols.Nodup)
-    (hr : RecsOK cols recs) (hn : Nested cols recs) {i : Nat} (hi : i < cols.length)
+    (hr : RecsOK cols recs) (hn : Nested cols recs) (hrec : recs ≠ []) {i : Nat}
+    (hi : i < cols.length)
     (h2 : 2 ≤ cols.length) (allowLeaf : Bool) (hl : allowLeaf = true ∨ i + 1 < cols.length) :
     ∃ t', (fromRecordsRaw cols recs).dropLevel cols[i] allowLeaf = .ok t' ∧
       TreeEquiv t' (fromRecordsRaw (cols.eraseIdx i) (recs.map (·.eraseIdx i))) ∧
       Nested (cols.eraseIdx i) (recs.map (·.eraseIdx i)) :=
-  let ⟨t', h1, h2'⟩ := RawTree.drop_commutes_build hc hr hn hi h2 allowLeaf hl
+  let ⟨t', h1, h2'⟩ := RawTree.drop_commutes_build hc hr hn hrec hi h2 allowLeaf hl
   ⟨t', h1, h2', nested_eraseIdx hr hn i⟩
 
 example : (fromRecordsRaw [0, 1, 2] [[10, 20, 30], [10, 21, 31], [11, 22, 32], [10, 20, 33]]).dropLevel 1
@@ -684,15 +743,17 @@ example : (fromRecordsRaw [0, 1, 2] [[10, 20, 30], [10, 21, 31], [11, 22, 32], [
 /-- Generated obligation: `lean/CTM/Generated/TreeConsts.lean` is rewritten by
 `./check C10` from the current source of `validate_taxonomy_tree`.  The
 translator recognised the function, the keys it ignores are exactly the three
-the model and the harness set aside, and both child-list tests (repeated
-child, no children) are present — so `validate` (= `validateWith true`) is the
+the model and the harness set aside, and the child-list tests (repeated
+child, no children), the duplicate-level test and the no-nodes test are present — so `validate` (= `validateWith true`) is the
 validator of the source as it stands. -/
 theorem generated_validator_constants :
     Generated.TreeConsts.recognised = true ∧
     Generated.TreeConsts.ignorableKeys = ["hierarchy_mapper", "metadata", "name_mapper"] ∧
     Generated.TreeConsts.repeatedChildTest = true ∧
     Generated.TreeConsts.noChildrenTest = true ∧
+    Generated.TreeConsts.dupLevelTest = true ∧
+    Generated.TreeConsts.noNodesTest = true ∧
     ∀ t : RawTree, t.validate = t.validateWith Generated.TreeConsts.strictChildren := by
-  refine ⟨by decide, by decide, by decide, by decide, fun t => rfl⟩
+  refine ⟨by decide, by decide, by decide, by decide, by decide, by decide, fun t => rfl⟩
 
 end CTM.C10
